@@ -566,5 +566,80 @@ def gen_chrome(repo, out):
 SECTIONS.append(gen_chrome)
 
 
+def _z_expr(node, var):
+    """a boolean expression over the integer variable <var> -> Coq text over (code : Z)"""
+    if isinstance(node, ast.BoolOp):
+        fn = 'orb' if isinstance(node.op, ast.Or) else 'andb'
+        parts = [_z_expr(v, var) for v in node.values]
+        expr = parts[-1]
+        for part in reversed(parts[:-1]):
+            expr = '(%s %s %s)' % (fn, part, expr)
+        return expr
+    if isinstance(node, ast.Compare) and len(node.ops) == 1 and isinstance(node.left, ast.Name) and node.left.id == var:
+        rhs = node.comparators[0]
+        if isinstance(rhs, ast.UnaryOp) and isinstance(rhs.op, ast.USub) and isinstance(rhs.operand, ast.Constant):
+            val = -rhs.operand.value
+        elif isinstance(rhs, ast.Constant) and isinstance(rhs.value, int):
+            val = rhs.value
+        else:
+            raise TableError('row flags: unexpected comparison operand')
+        z = '(%d)%%Z' % val
+        op = node.ops[0]
+        if isinstance(op, ast.Eq):
+            return '(Z.eqb code %s)' % z
+        if isinstance(op, ast.Gt):
+            return '(Z.ltb %s code)' % z
+        if isinstance(op, ast.Lt):
+            return '(Z.ltb code %s)' % z
+        if isinstance(op, ast.GtE):
+            return '(Z.leb %s code)' % z
+        if isinstance(op, ast.LtE):
+            return '(Z.leb code %s)' % z
+    raise TableError('row flags: unexpected expression shape')
+
+
+def gen_structure(repo, out):
+    """small pieces of control structure translated from the source: which include values select which view
+    (_htmldiff), and the boolean row attributes of the links table (_table_row_for_link)"""
+    rel = 'web_monitoring_diff/html_render_diff.py'
+    f = _find_func(_read(repo, rel), '_htmldiff', rel)
+    table = []
+    for n in f.body:
+        if isinstance(n, ast.If) and not n.orelse and len(n.body) == 1 and isinstance(n.body[0], ast.Assign):
+            tgt = n.body[0].targets[0]
+            if not (isinstance(tgt, ast.Subscript) and isinstance(tgt.value, ast.Name) and tgt.value.id == 'diffs' and isinstance(tgt.slice, ast.Constant)):
+                continue
+            tests = n.test.values if isinstance(n.test, ast.BoolOp) and isinstance(n.test.op, ast.Or) else [n.test]
+            vals = []
+            for t in tests:
+                if not (isinstance(t, ast.Compare) and isinstance(t.left, ast.Name) and t.left.id == 'include' and len(t.ops) == 1
+                        and isinstance(t.ops[0], ast.Eq) and isinstance(t.comparators[0], ast.Constant)):
+                    raise TableError('_htmldiff: unexpected include test')
+                vals.append(t.comparators[0].value)
+            table.append((tgt.slice.value, vals))
+    if [k for k, _ in table] != ['combined', 'insertions', 'deletions']:
+        raise TableError('_htmldiff: expected the three include blocks in order, found %s' % [k for k, _ in table])
+    out.append('Definition include_table : list (list N * list (list N)) :=\n  [%s].' % ';\n   '.join('(%s, %s)' % (cstr(k), cstr_list(v)) for k, v in table))
+
+    rel = 'web_monitoring_diff/html_links_diff.py'
+    f = _find_func(_read(repo, rel), '_table_row_for_link', rel)
+    flags = None
+    for n in ast.walk(f):
+        if (isinstance(n, ast.Call) and isinstance(n.func, ast.Name) and n.func.id == 'tag' and n.args and isinstance(n.args[0], ast.Constant)
+                and n.args[0].value == 'tr' and len(n.args) >= 2 and isinstance(n.args[1], ast.Dict)):
+            d = n.args[1]
+            items = [(_const_str(k, 'row attrs'), v) for k, v in zip(d.keys, d.values)]
+            if items and items[0][0] == 'class':
+                row_class = _const_str(items[0][1], 'row class')
+                flags = [(k, _z_expr(v, 'change_type')) for k, v in items[1:]]
+    if flags is None:
+        raise TableError("_table_row_for_link: tag('tr', {...}) not found")
+    out.append('Definition row_class : list N := %s.' % cstr(row_class))
+    out.append('Definition row_flags (code : Z) : list (list N * bool) :=\n  [%s].' % ';\n   '.join('(%s, %s)' % (cstr(k), e) for k, e in flags))
+
+
+SECTIONS.append(gen_structure)
+
+
 if __name__ == '__main__':
     sys.exit(main(sys.argv))
